@@ -309,12 +309,18 @@ def qlist(xs):
 # --------------------------------------------------------------------------
 # Watchdog
 
-class Hang(Exception):
+class Hang(BaseException):
+  # BaseException: a harness' or the implementation's own `except Exception` must not
+  # swallow the watchdog (seeded C13-v1 looped forever inside such a handler)
   pass
 
 
+_ARMED = [False]
+
+
 def _alarm(signum, frame):
-  raise Hang()
+  if _ARMED[0]:
+    raise Hang()
 
 
 def with_watchdog(fn, seconds, *args):
@@ -323,13 +329,17 @@ def with_watchdog(fn, seconds, *args):
   old = signal.signal(signal.SIGALRM, _alarm)
   # repeating timer: an exception raised inside a GC / C callback is swallowed by
   # the interpreter, so keep firing every second until the call is abandoned
+  _ARMED[0] = True
   signal.setitimer(signal.ITIMER_REAL, float(seconds), 1.0)
   try:
-    return fn(*args), None
+    try:
+      return fn(*args), None
+    finally:
+      _ARMED[0] = False
+      signal.setitimer(signal.ITIMER_REAL, 0)
   except Hang:
     return None, 'hang'
   finally:
-    signal.setitimer(signal.ITIMER_REAL, 0)
     signal.signal(signal.SIGALRM, old)
 
 
